@@ -153,6 +153,16 @@ def run_case(ctx, i, rng):
                     ctx.count("very_long_names")
                 except ValueError:
                     pass
+            # ... and a bus with such a name whose bits are numbered from 8 / 98 / 998 (the per-bit identifiers get longer suffixes)
+            buses_ = [c for l in n.libraries for d_ in l.definitions for c in d_.cables if len(c.wires) >= 2 and c.name and not c.name.endswith("]")
+                      and not any(isinstance(p_, sdn.InnerPin) for w_ in c.wires for p_ in w_.pins)]
+            for c in rng.sample(buses_, min(len(buses_), 2)):
+                try:
+                    c.name = "%s_LB_" % c.name + "z" * rng.choice([240, 250, 252])
+                    c.lower_index = rng.choice([8, 98, 998])
+                    ctx.count("long_named_buses_with_a_base_index")
+                except ValueError:
+                    pass
         if i % 20 == 13:
             # a LARGE file (beyond 64 KiB of text): hundreds of renamed instances with string properties in the top cell
             topd_ = n.top_instance.reference
